@@ -58,9 +58,12 @@ def gen_config(rng, tier):
     ninit = rng.below(3)
     init = ";".join(rng.pick(KEYS) for _ in range(ninit)) if ninit else "-"
     nth = 2 + rng.below(2 if tier == "quick" else 3)
+    many = rng.chance(2, 5)
+    if many:
+        nth = 4 + rng.below(2)          # queue layouts such as holder, reader, writer, reader need 4-5 threads
     threads = []
     for t in range(nth):
-        nops = 1 + rng.below(3)
+        nops = 1 + rng.below(2 if many else 3)
         ops = []
         nsub = 0
         for _ in range(nops):
@@ -83,7 +86,7 @@ def gen_config(rng, tier):
 
 
 DFS_CONFIGS = ["a/b|Na/*,Sa/c", "a/b|Na/*:Na/b,Sa/c:U0", "a/b;a/c|Na/*,Ka/*,Sa/b", "-|Sa/b:U0,Na/b:Na/b",
-               "a/b|Na/*,Sa/b:Sa/c", "-|Sa/b:Sa/c:U0:U1,Na/*:Na/*"]
+               "a/b|Na/*,Sa/b:Sa/c", "-|Sa/b:Sa/c:U0:U1,Na/*:Na/*", "a/b|Na/*,Sa/c,Na/*,Sa/b,Na/*"]
 
 
 # ------------------------------------------------------------------ trace analysis
@@ -299,9 +302,9 @@ def run_tie(prop, spec, tier, seed):
             distinct.add((r.line.split()[1], tuple(l for l in r.events if l.split()[0] in ("op", "opret", "cb", "park"))))
     res.distinct = len(distinct)
     res.rule = ("executions of the real ConcurrentSubjectRouter under the controlled scheduler: corpus (%d) + stateless DFS (<=%d preemptions) over %s (%d executions) "
-                "+ %d seeded random schedules of random 2-%d-thread operation mixes (notify/subscribe/unsubscribe/shrink/exists/depth, callbacks yield); "
+                "+ %d seeded random schedules of random 2-%d-thread (40%% with 4-5 threads) operation mixes (notify/subscribe/unsubscribe/shrink/exists/depth, callbacks yield); "
                 "distinct_nontrivial = distinct (configuration, observable trace) in which a mutating operation overlaps a notify of another thread in real time" %
-                (ncorpus, 2 if tier == "quick" else 3, DFS_CONFIGS, ndfs, nrand, 3 if tier == "quick" else 4))
+                (ncorpus, 2 if tier == "quick" else 3, DFS_CONFIGS, ndfs, nrand, 5))
     res.dist = {"status": stat, "executions_with_overlap": overlapped, "lock_kinds": kinds}
     if executed:
         res.samples = [{"run": executed[min(ncorpus, len(executed) - 1)].line, "events": [l for l in executed[min(ncorpus, len(executed) - 1)].events if l.split()[0] in ("op", "opret", "cb", "cbx", "park")][:40]}]
